@@ -8,7 +8,7 @@ RULE = ('metamorphic pairs: refraction with |sin t_in| <= n (Snell), magnificati
         'non-trivial = helper result differs from its operands')
 TRUSTED = TRUSTED_COMMON
 ASSUMPTIONS = ASSUME_COMMON
-S3_LEGS = ['Snell law, 1/r^n and 1/r scaling (uses libm pow accuracy), sigmoid strictly inside (0, magnitude), |tanh output| <= magnitude, quadrilateral-area invariance under common translation/rotation and equality with the shoelace area: predicates against mpmath']
+S3_LEGS = ['Snell (C19_snell), 1/r^n value (C19_inverse_field_value, per-call pow premise), wire field (C19_wire_field_value), sigmoid / tanh bounds are theorems under explicit libm premises; the scaling laws as ratios, quadrilateral-area invariance under common translation / rotation and equality with the shoelace area are decided by predicates against mpmath only']
 
 def generate(rng, tier):
     n = 200 if tier == 'quick' else 5000
@@ -19,7 +19,7 @@ def generate(rng, tier):
         preds = []
         g = canon_geonum(P, r, False, r.chance(0.3))
         # Snell
-        nidx = P.add('GScalar', P.f(r.choice([1.0, 1.33, 1.5, 2.4, r.uniform(1.0, 3.0)])))
+        nidx = P.add('GScalar', P.f(r.choice([1.0, 1.33, 1.5, 2.4, r.uniform(1.0, 3.0), 100.0, r.logu(1.0, 1e3)])))
         preds.append(('refract_ref', [g, nidx, P.add('TRefract', g, nidx)]))
         # magnify
         m = r.choice([1.0, -1.0, 2.0, 0.5, -2.0, fb.nxt(1.0, r.choice([-1, 1])), r.uniform(0.2, 5)])
